@@ -159,6 +159,93 @@ func (g *gen) randText(alpha []string, max int) string {
 	return b.String()
 }
 
+// ---------- programmatic edits whose argument is derived from the text the widget holds ----------
+
+// A derive says how the text of an operation (SetContent, InsertStringAtCursor, a typed or
+// pasted text) is computed, at the moment the operation is applied, from the text the widget
+// holds then (or from the last non-empty text it held: "Reset, then put the old text back").
+// The ideal editor does not care where its argument comes from; code that compares the
+// argument with its own state (early returns, caches, "unchanged" shortcuts) does.
+type derive struct {
+	how   string // "" (not derived), same, prefix, suffix, extend, prepend, double, norm, lastdiff
+	k     int    // prefix/suffix: clusters kept, modulo (number of clusters + 1)
+	extra string // material of extend / prepend / lastdiff
+	last  bool   // derive from the last non-empty text the widget held, not from the current one
+}
+
+var deriveHows = []string{"same", "prefix", "suffix", "extend", "prepend", "double", "norm", "lastdiff"}
+
+func (d derive) String() string {
+	if d.how == "" {
+		return ""
+	}
+	src := "current"
+	if d.last {
+		src = "last-nonempty"
+	}
+	return fmt.Sprintf(" [%s of %s text]", d.how, src)
+}
+
+// canonically equivalent spellings that are both clusters of the stable alphabet
+var normPairs = map[string]string{"\u00e9": "e\u0301", "e\u0301": "\u00e9", "\ud55c": "\u1112\u1161\u11ab", "\u1112\u1161\u11ab": "\ud55c"}
+
+func (d derive) of(cur, lastNonEmpty string) string {
+	base := cur
+	if d.last {
+		base = lastNonEmpty
+	}
+	cs := clustersOf(base)
+	n := len(cs)
+	if n > 40 && (d.how == "double" || d.how == "extend" || d.how == "prepend") {
+		return base // keep random histories from growing without bound
+	}
+	switch d.how {
+	case "same":
+		return base
+	case "prefix":
+		return strings.Join(cs[:d.k%(n+1)], "")
+	case "suffix":
+		return strings.Join(cs[n-d.k%(n+1):], "")
+	case "extend":
+		return base + d.extra
+	case "prepend":
+		return d.extra + base
+	case "double":
+		return base + base
+	case "norm": // same line to the reader, different string
+		out := make([]string, n)
+		for i, c := range cs {
+			out[i] = c
+			if o, ok := normPairs[c]; ok {
+				out[i] = o
+			}
+		}
+		return strings.Join(out, "")
+	case "lastdiff": // equal prefix, equal length, different last cluster
+		if n == 0 {
+			return d.extra
+		}
+		e := d.extra
+		if e == cs[n-1] || e == "" {
+			e = "Z"
+			if cs[n-1] == "Z" {
+				e = "q"
+			}
+		}
+		return strings.Join(cs[:n-1], "") + e
+	}
+	panic("derive " + d.how)
+}
+
+func (g *gen) randDerive(alpha []string) derive {
+	r := g.cfg.Rand
+	how := deriveHows[r.Intn(len(deriveHows))]
+	if r.Intn(3) == 0 {
+		how = "same"
+	}
+	return derive{how: how, k: r.Intn(12), extra: g.randText(alpha, 3), last: r.Intn(4) == 0}
+}
+
 // ============================================================ TextField
 
 type tfOp struct {
@@ -166,12 +253,13 @@ type tfOp struct {
 	s       string
 	i       uint
 	variant int
+	dv      derive
 }
 
 func (o tfOp) String() string {
 	switch o.kind {
 	case "text", "insertapi", "setvalue":
-		return fmt.Sprintf("%s(%q)", o.kind, o.s)
+		return fmt.Sprintf("%s(%q)%s", o.kind, o.s, o.dv)
 	case "cursortoapi":
 		return fmt.Sprintf("cursorto(%d)", o.i)
 	}
@@ -312,11 +400,21 @@ func (g *gen) runTF(s *hx.Stream, ops []tfOp, W int, stable bool, tags ...string
 			log = append(log, [2]string{"CbSubmit", v})
 			return nil, nil
 		}
+		lastNonEmpty := ""
 		for _, o := range ops {
 			log = nil
 			pre := tf.Value
 			preCur, preN := tf.VerifState()
+			if o.dv.how != "" {
+				o.s = o.dv.of(pre, lastNonEmpty)
+				if o.s == "" && o.kind == "text" { // a key event without Text is not an insertion
+					o = tfOp{kind: "ignored", variant: 1}
+				}
+			}
 			o.apply(tf)
+			if tf.Value != "" {
+				lastNonEmpty = tf.Value
+			}
 			cur, n := tf.VerifState()
 			surf, err := tf.Draw(vxfw.DrawContext{Max: vxfw.Size{Width: uint16(W), Height: 1}, Characters: vaxis.Characters})
 			if err != nil {
@@ -404,6 +502,89 @@ func (g *gen) randTFOp(alpha []string, curLen int) tfOp {
 	}
 }
 
+// a programmatic edit (or a typed / pasted text) whose argument is derived from the field's
+// own text; "Reset / Enter, then the old text again" comes as two operations
+func (g *gen) randTFDerived(alpha []string) []tfOp {
+	r := g.cfg.Rand
+	d := g.randDerive(alpha)
+	switch r.Intn(6) {
+	case 0, 1:
+		return []tfOp{{kind: "insertapi", dv: d}}
+	case 2:
+		return []tfOp{{kind: "text", variant: r.Intn(3), dv: d}}
+	case 3:
+		d.last = true
+		return []tfOp{{kind: "resetapi"}, {kind: "insertapi", dv: d}}
+	case 4:
+		d.last = true
+		return []tfOp{{kind: "enter"}, {kind: "text", variant: r.Intn(3), dv: d}}
+	default:
+		d.last = true
+		return []tfOp{{kind: "home"}, {kind: "killapi"}, {kind: "insertapi", dv: d}}
+	}
+}
+
+// cursor motions and deletions that leave the cursor somewhere inside a line of n clusters
+func tfMotions(n int) [][]tfOp {
+	return [][]tfOp{
+		{},
+		{{kind: "left"}},
+		{{kind: "left", variant: 1}, {kind: "left"}},
+		{{kind: "home"}},
+		{{kind: "cursortoapi", i: 1}},
+		{{kind: "cursortoapi", i: uint(n - 1)}},
+		{{kind: "home"}, {kind: "delete"}},
+		{{kind: "left"}, {kind: "backspace"}},
+		{{kind: "home", variant: 1}, {kind: "right"}, {kind: "kill"}, {kind: "home"}},
+	}
+}
+
+// lines the directed classes start from: narrow + wide + combining, words and separators,
+// both spellings of one accented letter, a ZWJ sequence, a single cluster
+var derivedTexts = []string{"a\u754ce\u0301b", "ab cd-1", "\u00e9x e\u0301\ud55c", "\U0001F469\u200d\U0001F467 x", "q"}
+
+// Directed: the field holds X, the cursor is moved off the end (or the line is edited in the
+// middle), then a programmatic edit / typed text arrives whose argument is X itself, a
+// prefix or suffix of X, X extended, X in another normalisation form, X with another last
+// cluster — also after Reset / Enter / killing the line (the old text put back) — and a
+// character is typed afterwards, so a wrong cursor shows in the text as well.
+func (g *gen) tfDerivedDirected(s *hx.Stream) {
+	full := []derive{{how: "same"}, {how: "prefix", k: 1}, {how: "prefix", k: 3}, {how: "suffix", k: 1}, {how: "extend", extra: "\u4e16z"},
+		{how: "prepend", extra: "-"}, {how: "norm"}, {how: "lastdiff", extra: "7"}, {how: "double"}}
+	few := []derive{{how: "same"}, {how: "prefix", k: 2}, {how: "norm"}}
+	last := func(ds []derive) []derive {
+		out := make([]derive, len(ds))
+		for i, d := range ds {
+			d.last = true
+			out[i] = d
+		}
+		return out
+	}
+	for ti, x := range derivedTexts {
+		n := len(clustersOf(x))
+		for mi, mot := range tfMotions(n) {
+			fill := tfOp{kind: "insertapi", s: x}
+			if (ti+mi)%2 == 1 {
+				fill = tfOp{kind: "text", s: x, variant: mi % 3}
+			}
+			emit := func(mid func(d derive) []tfOp, ds []derive) {
+				for _, d := range ds {
+					ops := append([]tfOp{fill}, mot...)
+					ops = append(ops, mid(d)...)
+					ops = append(ops, tfOp{kind: "text", s: "z"}, tfOp{kind: "end"})
+					g.runTF(s, ops, 200, true, "tf-derived-directed")
+				}
+			}
+			emit(func(d derive) []tfOp { return []tfOp{{kind: "insertapi", dv: d}} }, full)
+			emit(func(d derive) []tfOp { return []tfOp{{kind: "text", variant: mi % 3, dv: d}} }, few)
+			emit(func(d derive) []tfOp { return []tfOp{{kind: "resetapi"}, {kind: "insertapi", dv: d}} }, last(few))
+			emit(func(d derive) []tfOp {
+				return []tfOp{{kind: "enter"}, {kind: "text", dv: d}, {kind: "left"}, {kind: "insertapi", dv: derive{how: "same"}}}
+			}, last(few))
+		}
+	}
+}
+
 func (g *gen) tfStream() (*hx.Stream, *hx.Stream) {
 	s := hx.NewStream("textfield", "model.Editors", "tf_case", "c17_tf_mismatches", "c17_tf_violations")
 	s.ShardMax = 400
@@ -415,6 +596,7 @@ func (g *gen) tfStream() (*hx.Stream, *hx.Stream) {
 	g.runTF(s, []tfOp{{kind: "insertapi", s: "a\u4e16e\u0301"}, {kind: "home"}, {kind: "delete"}, {kind: "end"}, {kind: "left"}, {kind: "text", s: "x"}}, 200, true, "tf-regress")
 	g.runTF(s, []tfOp{{kind: "insertapi", s: "abc"}, {kind: "cursortoapi", i: 1}, {kind: "kill"}, {kind: "end"}, {kind: "text", s: "z"}, {kind: "cursortoapi", i: 9}}, 200, true, "tf-regress")
 	g.runTF(s, []tfOp{{kind: "text", s: "ab"}, {kind: "enter"}, {kind: "end"}, {kind: "text", s: "c"}}, 200, true, "tf-regress")
+	g.tfDerivedDirected(s)
 	// bounded-exhaustive over a 12-operation alphabet from three starting contents
 	ex := []tfOp{{kind: "text", s: "b"}, {kind: "text", s: "\u754c"}, {kind: "text", s: "e\u0301"}, {kind: "left"}, {kind: "right", variant: 1},
 		{kind: "home"}, {kind: "end", variant: 1}, {kind: "delete"}, {kind: "backspace"}, {kind: "kill"}, {kind: "enter"}, {kind: "cursortoapi", i: 2}}
@@ -475,6 +657,10 @@ func (g *gen) tfStream() (*hx.Stream, *hx.Stream) {
 				est += 2
 			}
 			ops = append(ops, o)
+			if r.Intn(10) == 0 && est < 60 {
+				ops = append(ops, g.randTFDerived(stableAlpha)...)
+				est += est + 3
+			}
 		}
 		g.runTF(sl, ops, tfWidths[r.Intn(len(tfWidths))], true, "tf-random")
 	}
@@ -495,6 +681,9 @@ func (g *gen) tfStream() (*hx.Stream, *hx.Stream) {
 				o = tfOp{kind: "setvalue", s: g.randText(both, 4)}
 			}
 			ops = append(ops, o)
+			if r.Intn(12) == 0 && j < 12 {
+				ops = append(ops, g.randTFDerived(both)...)
+			}
 		}
 		g.runTF(sl, ops, tfWidths[r.Intn(len(tfWidths))], false, "tf-unstable")
 	}
@@ -508,12 +697,13 @@ type tiOp struct {
 	s       string
 	w       int
 	variant int
+	dv      derive
 }
 
 func (o tiOp) String() string {
 	switch o.kind {
 	case "text", "modtext", "pastechunk", "setcontent":
-		return fmt.Sprintf("%s(%q)/%d", o.kind, o.s, o.variant)
+		return fmt.Sprintf("%s(%q)/%d%s", o.kind, o.s, o.variant, o.dv)
 	case "draw":
 		return fmt.Sprintf("draw(%d)", o.w)
 	}
@@ -637,10 +827,17 @@ func (g *gen) runTI(s *hx.Stream, prompt string, ops []tiOp, stable bool, tags .
 	}
 	root := g.vx.Window()
 	paste := ""
+	lastNonEmpty := ""
 	for _, o := range ops {
 		if o.kind == "draw" && g.hangs >= 2 && o.w != 0 && o.w <= pw+4 {
 			g.skippedDraws++
 			continue
+		}
+		if o.dv.how != "" {
+			o.s = o.dv.of(m.String(), lastNonEmpty)
+			if o.s == "" && o.kind != "setcontent" { // a key event without Text is not an insertion
+				o = tiOp{kind: "notext"}
+			}
 		}
 		tbl := "[]"
 		outcome := int64(0)
@@ -699,11 +896,18 @@ func (g *gen) runTI(s *hx.Stream, prompt string, ops []tiOp, stable bool, tags .
 		}
 		content := append([]vaxis.Character{}, m.Characters()...)
 		reseg := sameChars(chars(m.String()), content)
+		if len(content) > 0 {
+			lastNonEmpty = m.String()
+		}
 		obs := hx.Tuple(coqCls(content), hx.Z(int64(m.CursorPosition())), hx.Z(int64(m.VerifOffset())),
 			hx.Z(outcome), hx.Z(shown), hx.Bool(reseg))
 		steps = append(steps, hx.Tuple(o.coq(), tbl, obs))
 		jsObs = append(jsObs, fmt.Sprintf("%q cur=%d off=%d out=%d shown=%d reseg=%v", m.String(), m.CursorPosition(), m.VerifOffset(), outcome, shown, reseg))
 		switch o.kind {
+		case "setcontent":
+			if o.dv.how != "" && preCur < len(chars(preStr)) {
+				nontrivial = true
+			}
 		case "wordf", "wordb", "killword":
 			if m.String() != preStr || m.CursorPosition() != preCur {
 				nontrivial = true
@@ -797,10 +1001,96 @@ func (g *gen) randTIOp(alpha []string, unstable bool) []tiOp {
 			out = append(out, tiOp{kind: "pastechunk", s: c})
 		}
 		return append(out, tiOp{kind: "pasteend"})
-	case x < 90:
+	case x < 89:
 		return one(tiOp{kind: "setcontent", s: g.randText(alpha, 12)})
+	case x < 93:
+		return g.randTIDerived(alpha)
 	default:
 		return one(tiOp{kind: "draw", w: tiWidths[r.Intn(len(tiWidths))]})
+	}
+}
+
+// a programmatic edit (or a typed / pasted text) whose argument is derived from the
+// field's own text; "empty the field, then the old text again" comes as two operations
+func (g *gen) randTIDerived(alpha []string) []tiOp {
+	r := g.cfg.Rand
+	d := g.randDerive(alpha)
+	switch r.Intn(8) {
+	case 0, 1, 2:
+		return []tiOp{{kind: "setcontent", dv: d}}
+	case 3:
+		return []tiOp{{kind: "text", variant: r.Intn(3), dv: d}}
+	case 4:
+		return []tiOp{{kind: "other"}, {kind: "pastechunk", dv: d}, {kind: "pasteend"}}
+	case 5:
+		d.last = true
+		return []tiOp{{kind: "setcontent", s: ""}, {kind: "setcontent", dv: d}}
+	case 6:
+		d.last = true
+		return []tiOp{{kind: "killstart"}, {kind: "killend"}, {kind: "setcontent", dv: d}}
+	default:
+		d.last = true
+		return []tiOp{{kind: "home"}, {kind: "killend"}, {kind: "text", dv: d}}
+	}
+}
+
+// cursor motions and deletions that leave the cursor somewhere inside the line
+func tiMotions() [][]tiOp {
+	return [][]tiOp{
+		{},
+		{{kind: "left"}},
+		{{kind: "left", variant: 1}, {kind: "left"}},
+		{{kind: "home"}},
+		{{kind: "wordb"}},
+		{{kind: "home", variant: 1}, {kind: "wordf", variant: 1}},
+		{{kind: "home"}, {kind: "delete"}},
+		{{kind: "left"}, {kind: "backspace"}},
+		{{kind: "wordb", variant: 1}, {kind: "killword"}},
+	}
+}
+
+// Directed: the field holds X, the cursor is moved off the end (or the line is edited in the
+// middle), then SetContent / a typed text / a bracketed paste arrives whose argument is X
+// itself, a prefix or suffix of X, X extended, X in another normalisation form, X with
+// another last cluster — also after the field was emptied (the old text put back) — and a
+// character is typed afterwards and the line drawn, so a wrong cursor shows in the text
+// and in the drawn column as well.
+func (g *gen) tiDerivedDirected(s *hx.Stream) {
+	full := []derive{{how: "same"}, {how: "prefix", k: 1}, {how: "prefix", k: 3}, {how: "prefix", k: 0}, {how: "suffix", k: 1}, {how: "extend", extra: "\u4e16z"},
+		{how: "prepend", extra: "-"}, {how: "norm"}, {how: "lastdiff", extra: "7"}, {how: "double"}}
+	few := []derive{{how: "same"}, {how: "prefix", k: 2}, {how: "norm"}}
+	last := func(ds []derive) []derive {
+		out := make([]derive, len(ds))
+		for i, d := range ds {
+			d.last = true
+			out[i] = d
+		}
+		return out
+	}
+	for ti, x := range derivedTexts {
+		for mi, mot := range tiMotions() {
+			fill := tiOp{kind: "setcontent", s: x}
+			if (ti+mi)%2 == 1 {
+				fill = tiOp{kind: "text", s: x, variant: mi % 3}
+			}
+			emit := func(mid func(d derive) []tiOp, ds []derive) {
+				for _, d := range ds {
+					ops := append([]tiOp{fill}, mot...)
+					ops = append(ops, mid(d)...)
+					ops = append(ops, tiOp{kind: "text", s: "z"}, tiOp{kind: "draw", w: 40})
+					g.runTI(s, []string{"", "> "}[mi%2], ops, true, "ti-derived-directed")
+				}
+			}
+			emit(func(d derive) []tiOp { return []tiOp{{kind: "setcontent", dv: d}} }, full)
+			emit(func(d derive) []tiOp {
+				return []tiOp{{kind: "setcontent", dv: d}, {kind: "left"}, {kind: "setcontent", dv: derive{how: "same"}}}
+			}, few)
+			emit(func(d derive) []tiOp { return []tiOp{{kind: "text", variant: mi % 3, dv: d}} }, few)
+			emit(func(d derive) []tiOp { return []tiOp{{kind: "other"}, {kind: "pastechunk", dv: d}, {kind: "pasteend"}} }, few)
+			emit(func(d derive) []tiOp {
+				return []tiOp{{kind: "setcontent", s: ""}, {kind: "setcontent", dv: d}, {kind: "home"}, {kind: "setcontent", dv: derive{how: "same"}}}
+			}, last(few))
+		}
 	}
 }
 
@@ -945,6 +1235,7 @@ func (g *gen) tiStream() (*hx.Stream, *hx.Stream) {
 		{kind: "end"}, {kind: "draw", w: 10}, {kind: "draw", w: 80}, {kind: "killword"}, {kind: "draw", w: 80}}, true, "ti-regress")
 	g.runTI(s, "", []tiOp{{kind: "setcontent", s: "ab \u4e16\u754c-cd  e\u0301f"}, {kind: "wordb"}, {kind: "wordb"}, {kind: "wordb"}, {kind: "wordb"}, {kind: "wordb"},
 		{kind: "wordf"}, {kind: "wordf"}, {kind: "wordf"}, {kind: "wordf"}, {kind: "killword"}, {kind: "killword"}, {kind: "killword"}}, true, "ti-regress")
+	g.tiDerivedDirected(s)
 	// directed frame histories: a line wider than the window is drawn (the view scrolls), the
 	// cursor is rewound / the field emptied in every way the widget offers, that state is drawn
 	// or not, k graphemes arrive with no frame in between in every way the widget offers, and
